@@ -224,7 +224,9 @@ def generic(run, h, rng, proc):
                 if not np.allclose(base, fac, rtol=1e-9):
                     run.violation(f"factorisation:{label}", f"{label} with {op}: process(x, tukey {width}, n=32768) differs from process(pad(taper(x))) "
                                   f"(n={n}, dt={dt}); max rel diff {np.max(np.abs(base-fac)/np.abs(fac)):.2e}", rep)
-                # scaling by powers of two: bit-exact
+                # scaling by powers of two: the curve is unchanged / scaled to rounding (bit-exact for today's formulas, but
+                # e.g. sqrt(ns) * sqrt(ew) is an equally good geometric mean and does not commute with an odd power of two)
+                same = lambda a_, b_: np.allclose(a_, b_, rtol=1e-12, atol=0.0)
                 k = int(rng.choice([-3, 2, 5]))
                 f = 2.0 ** k
                 rec_all = h.SeismicRecording3C(ts(x[0] * f, dt), ts(x[1] * f, dt), ts(x[2] * f, dt))
@@ -233,20 +235,20 @@ def generic(run, h, rng, proc):
                 a_all = np.atleast_2d(proc([rec_all], mkst(kind, method)).amplitude)[0]
                 a_h = np.atleast_2d(proc([rec_h], mkst(kind, method)).amplitude)[0]
                 a_v = np.atleast_2d(proc([rec_v], mkst(kind, method)).amplitude)[0]
-                if not np.array_equal(a_all, base):
+                if not same(a_all, base):
                     run.violation(f"scale-all:{label}", f"{label} with {op}: multiplying all three components by 2^{k} changes the curve", rep)
                 # "any amplitude scale": ambient noise in m/s is of the order 1e-9 .. 1e-12, raw counts 1e6 .. 1e9; a power of two commutes
-                # with every floating-point operation of the pipeline, so the curve must be bit-identical
+                # with every floating-point operation of the pipeline but the square root, so the curve is the same to rounding
                 for kx in (-40, 33):
                     fx = 2.0 ** kx
                     rec_x = h.SeismicRecording3C(ts(x[0] * fx, dt), ts(x[1] * fx, dt), ts(x[2] * fx, dt))
                     a_x = np.atleast_2d(proc([rec_x], mkst(kind, method)).amplitude)[0]
-                    if not np.array_equal(a_x, base):
+                    if not same(a_x, base):
                         run.violation(f"scale-all:{label}", f"{label} with {op}: multiplying all three components by 2^{kx} (~{fx:.1e}) changes the curve "
                                       f"(max rel diff {np.max(np.abs(a_x - base) / np.abs(base)):.2e})", rep)
-                if not np.array_equal(a_h, base * f):
+                if not same(a_h, base * f):
                     run.violation(f"scale-horizontals:{label}", f"{label} with {op}: multiplying the horizontals by 2^{k} does not multiply the curve by 2^{k}", rep)
-                if not np.array_equal(a_v, base / f):
+                if not same(a_v, base / f):
                     run.violation(f"scale-vertical:{label}", f"{label} with {op}: multiplying the vertical by 2^{k} does not divide the curve by 2^{k}", rep)
                 # proportional components: flat at the closed-form value
                 A, B, C = 3.0, 1.5, 2.0
